@@ -390,7 +390,7 @@ def forward_signatures(func, calls, args, kwargs, sig):
         fwdargsvals.extend(rn(fwdvarargs))
         fwdkwargsvals = dict((n, rn(arg)) for n, arg in fwdkwargs.items())
         fwdkwargsvals.update(rn(fwdvarkwargs))
-        using_partial = wrapped_func == functools.partial
+        using_partial = wrapped_func is functools.partial
         if using_partial:
             if not fwdargsvals:
                 # partial(*args, **kwargs): what gets wrapped is not known
